@@ -11,7 +11,7 @@ Local Open Scope N_scope.
 Lemma exec_base_did_frame e c m c' a :
   exec_base e c m = Ok (c', a) -> (forall dm, m <> BDid dm) -> c_did c' = c_did c.
 Proof.
-  intros H Hn. destruct m as [am|dm|pm|f t amt|f t amt et|g r u ex|g r u]; simpl in H.
+  intros H Hn. destruct m as [am|dm|pm|f t amt|f t amt et|g r u ex|g r u|f amt outs]; simpl in H.
   - destruct am as [t d o|t mo d w o|t w o|t k v w o f]; simpl in H;
       match type of H with bind ?x _ = _ => destruct x; simpl in H; try discriminate end;
       inversion H; reflexivity.
@@ -29,6 +29,9 @@ Proof.
     destruct (match ex with Some t => _ | None => false end); try discriminate. inversion H; reflexivity.
   - destruct (e_unbech e g), (e_unbech e r); try discriminate.
     destruct (find_grant _ _ _ _); try discriminate. inversion H; reflexivity.
+  - destruct (e_unbech e f); try discriminate. destruct (unbech_outs _ _); try discriminate.
+    destruct (existsb _ _); try discriminate.
+    destruct (multi_send _ _ _ _ _); try discriminate. inversion H; reflexivity.
 Qed.
 
 Lemma ante_did_frame e c t c' : ante e c t = Some c' -> c_did c' = c_did c.
@@ -121,7 +124,7 @@ Proof.
   - intros a b0 c0 H1 H2 Ha. destruct (H1 Ha) as [Hb P1]. destruct (H2 Hb) as [Hc P2].
     split; [exact Hc | eapply did_mono_trans; eauto].
   - intros e c0 m c' acks _ Hvb Hx.
-    destruct m as [am|dm|pm|f t amt|f t amt et|g r u ex|g r u];
+    destruct m as [am|dm|pm|f t amt|f t amt et|g r u ex|g r u|f amt outs];
       try (apply (R_did_same c0 c'); eapply exec_base_did_frame; [exact Hx | intros dm0; discriminate]).
     simpl in Hvb, Hx. eapply exec_did_step; eauto.
   - intros e c0 t c' _ Hx. apply R_did_same. apply (ante_did_frame e c0 t c' Hx).
